@@ -302,9 +302,13 @@ def run(pid, tier, seed, t0):
     # the sniffer in front of the rewind buffer (ReadVersion + Rewind as the server assembles them): bytes clause of Sniff.tla
     import c_sniff
     sniff = c_sniff.bytes_stage(pid, tier, seed, verdict)
+    # extension stages (own specs, same verdict): Duplex.tla (connect/accept pairing and the byte pipes) and TlsStream.tla
+    import x_duplex, x_tlsstream
+    duplex_stage = x_duplex.stage(pid, tier, seed, verdict)
+    tls_stage = x_tlsstream.stage(pid, tier, seed, verdict)
     code, n_unlisted = verdict.finish()
     coverage = {
-        "sniffing_rewind_assembly": sniff,
+        "sniffing_rewind_assembly": sniff, "duplex_transport": duplex_stage, "tls_stream_model": tls_stage,
         "states": mc.distinct, "transitions": mc.generated, "model_depth": mc.depth,
         "model_config": cfg["mc"], "model_wall_s": round(mc.wall, 1),
         "traces_validated_against_impl": st["nseq"],
@@ -336,6 +340,13 @@ def run(pid, tier, seed, t0):
 
 def replay(pid, path):
     obj = json.load(open(path))
+    _k = obj.get("replay", obj).get("kind") if isinstance(obj.get("replay", obj), dict) else None
+    if _k == "tlsstream-ops":
+        import x_tlsstream
+        return x_tlsstream.replay(pid, obj)
+    if _k == "duplex-trace":
+        import x_duplex
+        return x_duplex.replay(pid, obj)
     rp = obj.get("replay", obj)
     if rp.get("kind") == "sniff-vectors":
         import c_sniff
